@@ -43,3 +43,35 @@ theorem Rd.ostep_refused_noop (r : Rd) (o : OOp)
       | ok p => rw [hd] at h; simp at h
 
 end Op2.Stream
+
+namespace Op2.Stream
+
+/-- a refused request leaves the whole system as it was -/
+theorem Sys.step_refused_noop (objs : Sys) (i : Nat) (o : OOp)
+    (h : (Sys.step objs i o).1 = some (.out .err) ∨ (Sys.step objs i o).1 = some .failed ∨ (Sys.step objs i o).1 = some .unsupported ∨
+         (Sys.step objs i o).1 = none) : (Sys.step objs i o).2 = objs := by
+  unfold Sys.step at h ⊢
+  cases hi : objs[i]? with
+  | none => rfl
+  | some r =>
+    rw [hi] at h
+    simp only at h ⊢
+    have hlt : i < objs.length := by
+      rcases Nat.lt_or_ge i objs.length with h' | h'
+      · exact h'
+      · rw [List.getElem?_eq_none h'] at hi; cases hi
+    have hget : objs[i] = r := by rw [List.getElem?_eq_getElem hlt] at hi; exact Option.some.inj hi
+    cases hx : (r.ostep o).1 with
+    | made n => rw [hx] at h; simp at h
+    | out y =>
+      rw [hx] at h; simp only [Option.some.injEq, OOut.out.injEq, reduceCtorEq, or_false] at h
+      have := Rd.ostep_refused_noop r o (Or.inl (by rw [hx, h]))
+      simp only; rw [this, ← hget]; exact List.set_getElem_self hlt
+    | failed =>
+      have := Rd.ostep_refused_noop r o (Or.inr (Or.inl hx))
+      simp only; rw [this, ← hget]; exact List.set_getElem_self hlt
+    | unsupported =>
+      have := Rd.ostep_refused_noop r o (Or.inr (Or.inr hx))
+      simp only; rw [this, ← hget]; exact List.set_getElem_self hlt
+
+end Op2.Stream
